@@ -324,7 +324,7 @@ EvalCalledLambda(t, env) ==     \* t = call whose func is a lam term
 (* i.e. the called lambda (lambda params: body)(args).  The table is rendered to real `def`s  *)
 (* and lambdas by the harness (harness/props_helpers.py HELPER_SOURCE must match).            *)
 LamD(ps, nd, body, defs) == T("lam", "", nd, ps, <<body>> \o defs)
-HelperNames == {"h_id", "h_inc", "h_sub", "h_lam", "h_nest", "h_nest2", "h_two", "h_cap", "h_kw", "h_d3", "h_deep", "h_rec", "h_comp", "h_comp2", "h_la", "h_lb"}
+HelperNames == {"h_id", "h_inc", "h_sub", "h_lam", "h_nest", "h_nest2", "h_two", "h_cap", "h_kw", "h_d3", "h_deep", "h_rec", "h_comp", "h_comp2", "h_la", "h_lb", "h_cd", "h_th", "h_re1", "h_re2"}
 HelperLam(f) ==
     CASE f = "h_id"   -> Lam(<<"a">>, Name("a"))
       [] f = "h_inc"  -> Lam(<<"a">>, BinOp("+", Name("a"), IntC(1)))
@@ -352,6 +352,12 @@ HelperLam(f) ==
                                                        Attr(Name("c"), "trks"), <<>>)>>))
       \* two lambda helpers written on ONE source line with the same parameter name: the library cannot tell them
       \* apart and must leave them as calls by name (never inline the other one)
+      \* the body calls a lambda that has a defaulted parameter left to its default / a parameter-less lambda
+      [] f = "h_cd"   -> Lam(<<"a">>, CallP(LamD(<<"x", "s">>, 1, BinOp("*", Name("x"), Name("s")), <<IntC(2)>>), <<Name("a")>>))
+      [] f = "h_th"   -> Lam(<<"a">>, BinOp("+", CallP(Lam(<<>>, IntC(3)), <<>>), Name("a")))
+      \* two DIFFERENT functions that share file, name and qualified name (defined in the branches of one factory)
+      [] f = "h_re1"  -> Lam(<<"a">>, BinOp("*", Name("a"), IntC(2)))
+      [] f = "h_re2"  -> Lam(<<"a">>, BinOp("+", Name("a"), IntC(100)))
       [] f = "h_la"   -> Lam(<<"j">>, BinOp("*", Name("j"), IntC(2)))
       [] f = "h_lb"   -> Lam(<<"j">>, BinOp("*", Name("j"), IntC(5)))
       [] f = "h_d3"   -> LamD(<<"x", "y", "z">>, 2,
